@@ -39,6 +39,8 @@ var KeyVocab = map[string][]string{
 	"uint16":  {"1", "2", "65535", "300"},
 	"boolean": {"true", "false"},
 	"binary":  {"AQID", "/w==", "+/8=", "aGk="},
+	// keys that agree in their first six fraction digits
+	"decimal64": {"0.0000001", "0.0000003", "100.00000001", "100.00000002", "100", "1.5"},
 }
 
 type Params struct {
